@@ -102,10 +102,13 @@ func HarnessC15Poll() {
 	ctx := &vhClockCtx{log: &log}
 	start := vNow()
 	ctx.hasDeadline = nondetBool("ctx.has-deadline")
-	ctx.deadline = int64(nondetInt("ctx.deadline"))
-	ctx.cancelAt = int64(nondetInt("ctx.cancel-at"))
-	vAssume(ctx.deadline > 0)
-	vAssume(ctx.cancelAt > 0)
+	// (instants are taken relative to the start so that a witness replays on the real time line)
+	dOff := int64(nondetInt("ctx.deadline-after"))
+	cOff := int64(nondetInt("ctx.cancel-after"))
+	vAssume(dOff > -vhPoll && dOff < 64*vhPoll)
+	vAssume(cOff > -vhPoll && cOff < 64*vhPoll)
+	ctx.deadline = start + dOff
+	ctx.cancelAt = start + cOff
 	// the context ends within the explored number of poll intervals
 	k := int64(vParam("polls", 3))
 	if ctx.hasDeadline {
